@@ -147,6 +147,17 @@ func runC05R3(c *Ctx, r *Rep) {
 			r.undecided(key+"shape", st.undPos[0], "%s", strings.Join(st.und, "; "))
 			return
 		}
+		// at every exit the generator is not marked as executing: the last assignment to Running on the path, if any, is false
+		lastSeq, lastVal := -1, false
+		for _, as := range st.assigns {
+			if strings.HasSuffix(as.lhs, ".Running") && as.rhs.kind == vBool && as.rhs.bk && as.seq > lastSeq {
+				lastSeq, lastVal = as.seq, as.rhs.b
+			}
+		}
+		if lastSeq >= 0 {
+			r.check(!lastVal, key+"Running cleared at exit", fd.Pos(), "Running is false when Send returns",
+				fmt.Sprintf("on the path %v Send returns with Running still set: every later next()/send() on this generator raises 'generator already executing'", st.conds))
+		}
 		var run *callRec
 		for i := range st.calls {
 			if strings.Contains(st.calls[i].callee, "VmRunFrame") {
